@@ -38,7 +38,8 @@ def main():
                               stdout=subprocess.DEVNULL, stderr=subprocess.DEVNULL)
         subprocess.check_call(['git', '-C', wt, 'apply', patch])
         shutil.copytree(os.path.join(ROOT, 'lean'), lean, symlinks=True)
-        env = dict(os.environ, LADYBUG_REPO=wt, VERIF_LEAN_DIR=lean, VERIF_SEED=a.seed)
+        env = dict(os.environ, LADYBUG_REPO=wt, VERIF_LEAN_DIR=lean, VERIF_SEED=a.seed,
+                   VERIF_EVIDENCE_DIR=os.path.join(tmp, 'evidence'))
         p = subprocess.run([os.path.join(ROOT, 'check'), a.prop, '--tier', a.tier], env=env,
                            stdout=subprocess.PIPE, stderr=subprocess.STDOUT)
         out = p.stdout.decode('utf-8', 'replace')
